@@ -429,6 +429,20 @@ def extract(src, problems, soft=()):
                         raise Bad('state-changing call %s' % ast.unparse(n))
                 if isinstance(n, ast.Attribute) and n.attr == '__dict__':
                     raise Bad('__dict__ access')
+        # the keyword dictionaries the helpers fill are FRESH ones (never an alias of matchdict, GET, route_kw ..)
+        fresh = 0
+        for n in ast.walk(cls):
+            if isinstance(n, ast.Assign):
+                for t in n.targets:
+                    if isinstance(t, ast.Name) and t.id in ('urlkw', 'newkw'):
+                        if not (isinstance(n.value, ast.Dict) and not n.value.keys):
+                            raise Bad('%s is not a fresh {}: %s' % (t.id, ast.unparse(n)))
+                        fresh += 1
+            if isinstance(n, ast.Name) and isinstance(n.ctx, ast.Store) and n.id in ('urlkw', 'newkw') and \
+                    not any(isinstance(pn, ast.Assign) and n in pn.targets for pn in ast.walk(cls)):
+                raise Bad('%s bound outside a plain assignment' % n.id)
+        if fresh != 2:
+            raise Bad('expected exactly two fresh keyword dictionaries (urlkw in resource_url, newkw in current_route_url), found %d' % fresh)
         for st in url.tree.body:
             if isinstance(st, ast.ImportFrom) and any(a.name in ('reify', 'cached_property', 'cache') for a in st.names):
                 raise Bad('url.py imports %s' % [a.name for a in st.names])
